@@ -113,8 +113,8 @@ Fixpoint dec_val (s : sexp) : option val :=
         | _ => None end
       else if tag =? "maybe" then
         match args with
-        | [t; A "none"] => do t' <- dec_ty t; Some (VMaybe t' None)
-        | [t; v] => do t' <- dec_ty t; do v' <- dec_val v; Some (VMaybe t' (Some v'))
+        | [t; v] => do t' <- dec_ty t;
+                    if tag_is v "none" then Some (VMaybe t' None) else do v' <- dec_val v; Some (VMaybe t' (Some v'))
         | _ => None end
       else if tag =? "fun" then
         match args with [t; n; lz] => do t' <- dec_ty t; do n' <- dName n; do lz' <- dB lz; Some (VFun t' n' lz') | _ => None end
